@@ -60,6 +60,10 @@ def build():
     u.raw("contact", CT_SPEC)
     u.verify(CT, "impl fmt::Display for ContactType", "contact", props=["C11"], fns={"fmt": display("ct_text", ["C11"], what="text_form_reads_back")})
     u.verify(CT, "impl FromStr for ContactType", "contact", props=["C11"], fns={"from_str": parse("ct_parse", ["C11"])})
+    u.verify(CT, "clean_mailto", "contact", props=["C11", "C19"], fns={"clean_mailto": FnSpec(ret="r", sig="""
+    ensures r matches Ok(v) ==> v@ == value@, //@C11.a_contact_value_is_kept_as_configured
+        r is Ok, //@C11.every_contact_value_is_accepted,C19.no_contact_value_is_refused_or_crashes
+""")})
     u.raw("contact", CT_LEMMAS)
     return u
 
